@@ -110,6 +110,10 @@ def gen(rng, tier, n):
             ops.append(remote_case(rng))
             continue
         if r < 0.33 and r >= 0.27:
+            if rng.random() < 0.3:
+                from .. import gen_refs as _gr
+                ops.append({"op": "validate", "args": _gr.mixed_cycle(rng), "meta": {"kw": 4, "mixed": True}})
+                continue
             ops.append(ref_sibling_case(rng))
             continue
         if r < 0.27:
